@@ -6,7 +6,7 @@ import common as C
 from common import Failure, q, z, coq_list
 
 ID = "C17"
-GEN = []
+GEN = ["gen_lattice"]
 ALLOWED_AXIOMS = []
 MODEL_INDEPENDENT_OF_PROOFS = True      # Model/Lattice.v contains no proofs
 TRUSTED = [
@@ -831,8 +831,10 @@ def correspondence(ctx, model_ok=True):
     for i, code in sorted(codes.items()):
         if code >= 2:
             c = cases[i]
-            if c["kind"] == "addr":
+            if c["kind"] == "addr" and len(out["failures"]) < 2:
                 c = first_bad_prefix(ctx, c)
+            elif len(out["failures"]) >= 6:
+                break
             out["failures"].append(Failure(c, f"model and implementation disagree (code {code}) on a {c['kind']} case"))
     return out
 
